@@ -259,6 +259,113 @@ def linear_curve_len_position_err_float32_statement : Prop :=
 
 end New
 
+/-! ## non-vacuity: control points `(100,200) L, (107,224), (100,200)`, `L = 40` (cut) and `L = 60` (extension) -/
+
+section Examples
+
+attribute [local instance] C16.trigStub32
+attribute [local instance] posDecEq32
+
+/-- the end point of the cut at `L = 40`: `(107,224) + dir·15 = (102.80000305…, 209.60000610…)`. -/
+def cut40 : Pos Float32 := ⟨Float32.ofBits 0x42CD999A, Float32.ofBits 0x4351999A⟩
+/-- the end point of the extension to `L = 60`: `(107,224) + dir·35 = (97.19999695…, 190.39999390…)`, BEYOND the last
+control point `(100,200)`. -/
+def ext60 : Pos Float32 := ⟨Float32.ofBits 0x42C26666, Float32.ofBits 0x433E6666⟩
+
+theorem demo_c60x : toRat32 (Float32.ofBits 0x42C26666) = 12740198 / 131072 := by
+  rw [toRat32_bits (s := .positive) (m := 12740198) (e := -17) (hm := by decide) (by decide) rfl]; norm_num [sgnQ]
+theorem demo_c60y : toRat32 (Float32.ofBits 0x433E6666) = 12478054 / 65536 := by
+  rw [toRat32_bits (s := .positive) (m := 12478054) (e := -16) (hm := by decide) (by decide) rfl]; norm_num [sgnQ]
+
+theorem new_eval (L : Float) (pts : List (PathControlPoint Float32)) (path : List (Pos Float32)) (lens : List Float)
+    (key : ((Curve.new 10 GameMode.osu pts (some L) ({} : CurveBuffers Float32 Float)).toOption.map
+      fun r => decide (r.1.path = path ∧ r.1.lengths = lens)) = some true) :
+    ∃ c b', Curve.new 10 GameMode.osu pts (some L) ({} : CurveBuffers Float32 Float) = .ok (c, b') ∧
+      c.path = path ∧ c.lengths = lens := by
+  cases h : Curve.new 10 GameMode.osu pts (some L) ({} : CurveBuffers Float32 Float) with
+  | error e => rw [h] at key; simp [Except.toOption] at key
+  | ok r =>
+    rw [h] at key
+    obtain ⟨c, b'⟩ := r
+    simp [Except.toOption] at key
+    exact ⟨c, b', rfl, key.1, key.2⟩
+
+/-- `Curve::new` with `L = 40` on the demo control points: the natural lengths are `[0, 25, 50]`; the cut keeps
+`[0, 25]`, pushes `40`, and moves the last vertex to `cut40`, inside the second segment. -/
+theorem linCps_curve40 : ∃ c b', Curve.new 10 GameMode.osu linCps (some 40) ({} : CurveBuffers Float32 Float) = .ok (c, b') ∧
+    c.path = [demoPP, demoPE, cut40] ∧ c.lengths = [0, 25, 40] :=
+  new_eval 40 linCps _ _ (by decide +kernel)
+
+/-- `Curve::new` with `L = 60` on the demo control points: an EXTENSION, the last vertex moves to `ext60`, `10` px beyond
+the last control point in the direction of the last segment; lengths `[0, 25, 60]`. -/
+theorem linCps_curve60 : ∃ c b', Curve.new 10 GameMode.osu linCps (some 60) ({} : CurveBuffers Float32 Float) = .ok (c, b') ∧
+    c.path = [demoPP, demoPE, ext60] ∧ c.lengths = [0, 25, 60] :=
+  new_eval 60 linCps _ _ (by decide +kernel)
+
+theorem lenAdjOk_cut40 : LenAdjOk [demoPP, demoPE, cut40] := by
+  refine ⟨fun v hv => ?_⟩
+  cases hv
+  refine ⟨⟨by decide +kernel, by decide +kernel⟩, ?_, ?_⟩
+  · show |toRat32 (Float32.ofBits 0x42CD999A)| ≤ _; rw [demo_ex]; norm_num
+  · show |toRat32 (Float32.ofBits 0x4351999A)| ≤ _; rw [demo_ey]; norm_num
+
+theorem lenAdjOk_ext60 : LenAdjOk [demoPP, demoPE, ext60] := by
+  refine ⟨fun v hv => ?_⟩
+  cases hv
+  refine ⟨⟨by decide +kernel, by decide +kernel⟩, ?_, ?_⟩
+  · show |toRat32 (Float32.ofBits 0x42C26666)| ≤ _; rw [demo_c60x]; norm_num
+  · show |toRat32 (Float32.ofBits 0x433E6666)| ≤ _; rw [demo_c60y]; norm_num
+
+/-- **every hypothesis of `linear_curve_len_position_err_float32_partial` holds for `L = 40` (cut), progress `0.9`.** -/
+example : ∃ c b', Curve.new 10 GameMode.osu linCps (some 40) ({} : CurveBuffers Float32 Float) = .ok (c, b') ∧
+    c.path = [demoPP, demoPE, cut40] ∧ NearAdjustedPolyline linCps c 0.9 := by
+  obtain ⟨c, b', h, hp, hls⟩ := linCps_curve40
+  refine ⟨c, b', h, hp, ?_⟩
+  exact linear_curve_len_position_err_float32_partial 10 GameMode.osu linCps 40 {} b' c 0.9 linCps_allLinear
+    (by simp [linCps]) linCps_bounded linCps_finite (by decide +kernel) h (by rw [hp]; exact lenAdjOk_cut40)
+    (by rw [hp, hls]; rfl) (by decide +kernel)
+
+/-- **every hypothesis of `linear_curve_len_position_err_float32_partial` holds for `L = 60` (extension), progress `0.9`.** -/
+example : ∃ c b', Curve.new 10 GameMode.osu linCps (some 60) ({} : CurveBuffers Float32 Float) = .ok (c, b') ∧
+    c.path = [demoPP, demoPE, ext60] ∧ NearAdjustedPolyline linCps c 0.9 := by
+  obtain ⟨c, b', h, hp, hls⟩ := linCps_curve60
+  refine ⟨c, b', h, hp, ?_⟩
+  exact linear_curve_len_position_err_float32_partial 10 GameMode.osu linCps 60 {} b' c 0.9 linCps_allLinear
+    (by simp [linCps]) linCps_bounded linCps_finite (by decide +kernel) h (by rw [hp]; exact lenAdjOk_ext60)
+    (by rw [hp, hls]; rfl) (by decide +kernel)
+
+/-- the extension end point is NOT a control-point position and lies outside the bounding box of the control points
+(`x < 100`): a bound on the control points alone does not bound the curve — the requested length enters. -/
+example : toRat32 ext60.x < 100 ∧ toRat32 ext60.y < 200 := by
+  constructor
+  · show toRat32 (Float32.ofBits 0x42C26666) < _; rw [demo_c60x]; norm_num
+  · show toRat32 (Float32.ofBits 0x433E6666) < _; rw [demo_c60y]; norm_num
+
+/-- control points `(100,200) L, (107,224), (107,224)`: all linear, the last two equal. -/
+def tailCps : List (PathControlPoint Float32) :=
+  [⟨demoPP, some PathType.linear⟩, ⟨demoPE, none⟩, ⟨demoPE, none⟩]
+
+theorem tailCps_allLinear : AllLinear tailCps := by
+  intro cp hcp t ht
+  simp only [tailCps, List.mem_cons, List.not_mem_nil, or_false] at hcp
+  rcases hcp with rfl | rfl | rfl
+  · cases ht; rfl
+  · cases ht
+  · cases ht
+
+/-- **FINDING — "`c.path.length = c.lengths.length`" is FALSE for linear control points with a requested length**: the
+control points `(100,200) L, (107,224), (107,224)` (all linear, finite, bounded) with `L = 60 >` natural length `25` give the
+path `(100,200), (107,224), (107,224)` — THREE vertices — and the lengths `[0, 25, 25, 25]` — FOUR entries: the equal-tail
+exception of `calculate_length` (`lengths.push(calculated_len)` without a path point). The clause therefore appears in
+`linear_curve_len_shape` as a disjunction and in the position theorem as the hypothesis `hlen`. -/
+theorem linear_len_length_mismatch :
+    ∃ c b', Curve.new 10 GameMode.osu tailCps (some 60) ({} : CurveBuffers Float32 Float) = .ok (c, b') ∧
+      AllLinear tailCps ∧ c.path.length = 3 ∧ c.lengths.length = 4 ∧ ¬ c.path.length = c.lengths.length := by
+  obtain ⟨c, b', h, hp, hls⟩ := new_eval 60 tailCps [demoPP, demoPE, demoPE] [0, 25, 25, 25] (by decide +kernel)
+  exact ⟨c, b', h, tailCps_allLinear, by rw [hp]; rfl, by rw [hls]; rfl, by rw [hp, hls]; decide⟩
+
+end Examples
+
 end FloatSec
 
 end Rosu.C19
